@@ -1,5 +1,5 @@
 """Build the Lean project and run the model driver `mvdrv` over a batch of request lines."""
-import os, subprocess, tempfile, time
+import os, time, subprocess, tempfile, time
 from common import LEAN, MVDRV
 
 
@@ -58,8 +58,17 @@ def run_driver(lines, timeout=600):
     exe = os.environ.get("MVDRV_PRIVATE")
     if not exe or not os.path.exists(exe):
         exe = MVDRV
-    p = subprocess.run([exe], input=data, stdout=subprocess.PIPE, stderr=subprocess.PIPE,
-                       text=True, timeout=timeout)
+    for attempt in range(30):
+        try:
+            p = subprocess.run([exe], input=data, stdout=subprocess.PIPE, stderr=subprocess.PIPE,
+                               text=True, timeout=timeout)
+            break
+        except (FileNotFoundError, PermissionError, OSError):
+            # the driver binary is being relinked by a concurrent `lake build` (it is replaced, not rewritten in place):
+            # wait for it to come back rather than fail the run
+            if attempt == 29:
+                raise
+            time.sleep(2.0)
     if p.returncode != 0:
         raise DriverError("mvdrv exited %d: %s" % (p.returncode, p.stderr[-2000:]))
     out = p.stdout.splitlines()
